@@ -263,16 +263,21 @@ func hasDup(ns []*node) bool {
 		}) {
 			return true
 		}
-		for _, n := range ns {
-			if n.kind == "choice" {
-				for _, cs := range n.children {
-					for _, c := range cs.children {
-						if c.kind != "choice" && walk(c.children) {
-							return true
-						}
+		var below func(n *node) bool
+		below = func(n *node) bool {
+			if n.kind == "choice" || n.kind == "case" {
+				// same namespace as the parent (checked by flat); descend to the data nodes
+				for _, c := range n.children {
+					if below(c) {
+						return true
 					}
 				}
-			} else if walk(n.children) {
+				return false
+			}
+			return walk(n.children)
+		}
+		for _, n := range ns {
+			if below(n) {
 				return true
 			}
 		}
@@ -340,24 +345,31 @@ func generate(r *kit.Rng, maxStmts int) *Set {
 		fmt.Fprintf(&b, "  typedef %s { type int32 { range \"0..100\"; } default 7; units u; }\n", t1)
 		fmt.Fprintf(&b, "  typedef %s { type %s { range \"1..50\"; } }\n", t2, t1)
 		fmt.Fprintf(&b, "  typedef %s { type string { length \"1..20\"; pattern \"[a-z]*\"; } }\n", t3)
-		// identities with several derivations
-		base := g.id("id")
-		fmt.Fprintf(&b, "  identity %s;\n", base)
-		prev := base
-		for j := 0; j < r.Range(2, 5); j++ {
-			d := g.id("id")
-			b2 := prev
-			if r.Chance(1, 2) {
-				b2 = base
+		// identities with several derivations (not in every imported module: a
+		// pure types-and-groupings module is the common case)
+		base := ""
+		if i == 1 || r.Chance(1, 2) {
+			base = g.id("id")
+			fmt.Fprintf(&b, "  identity %s;\n", base)
+			prev := base
+			for j := 0; j < r.Range(2, 5); j++ {
+				d := g.id("id")
+				b2 := prev
+				if r.Chance(1, 2) {
+					b2 = base
+				}
+				fmt.Fprintf(&b, "  identity %s { base %s; }\n", d, b2)
+				prev = d
 			}
-			fmt.Fprintf(&b, "  identity %s { base %s; }\n", d, b2)
-			prev = d
 		}
 		fmt.Fprintf(&b, "  feature %s;\n  feature %s;\n", g.id("ft"), g.id("ft"))
 		fmt.Fprintf(&b, "  extension %s { argument a; }\n", g.id("ext"))
 		saveT, saveI := g.tdefs, g.ids
 		g.tdefs = []string{t1, t2, t3}
-		g.ids = []string{base}
+		g.ids = nil
+		if base != "" {
+			g.ids = []string{base}
+		}
 		savedNames := g.gname
 		g.gname = nil
 		for j := 0; j < r.Range(1, 3); j++ {
@@ -375,7 +387,10 @@ func generate(r *kit.Rng, maxStmts int) *Set {
 		b.WriteString("}\n")
 		set.Files[name] = b.String()
 		g.tdefs = append(saveT, name+":"+t1, name+":"+t2, name+":"+t3)
-		g.ids = append(saveI, name+":"+base)
+		g.ids = saveI
+		if base != "" {
+			g.ids = append(g.ids, name+":"+base)
+		}
 	}
 
 	// main module
@@ -457,6 +472,9 @@ func generate(r *kit.Rng, maxStmts int) *Set {
 	}
 	// module-level augments into top-level containers, in textual order
 	rootNodes := g.expand(top)
+	if hasDup(rootNodes) {
+		return nil // checked here, before a deviation removes a subtree from the expectation
+	}
 	var targets []*node
 	for _, n := range rootNodes {
 		if n.kind == "container" {
